@@ -39,7 +39,7 @@ def cases(tier):
             for ws in ([(1, 2), (3, 2)], [(0, 3), (2, 2)], [(1, 2), (3, 2), (4, 2)], [(0, 2), (1, 3)]):
                 W = all_windows(m)
                 sets = [[w] for w in W]
-                first = W[:4] if q else W[:6]
+                first = W[:4] if q else W[:8]
                 sets += [[a, b] for a, b in itertools.permutations(first, 2)]
                 sets += [list(t) for t in itertools.permutations(W[:3], 3)]
                 for iset in sets:
